@@ -468,7 +468,7 @@ func runC06(c *Checker) {
 	// progress needs the goroutines to be able to run at all (no lock-order deadlock, no race on the
 	// window state: C18) and the window accounting to be exact (C09: size(), admission, sequence
 	// space) - their obligations are part of this check under LAYER/<id>:<rule>
-	importLayers(c, "C18", "C09", "C01")
+	importLayers(c, "C18", "C09", "C01", "C12")
 	// 'stops retransmitting once everything has been acknowledged' also needs the base moves to be honoured
 	ruleWIN4(c)
 }
